@@ -149,6 +149,8 @@ M('lsb-use-before-await', ['C01'], (RT, "        r = self._random(Zp, 1 << (l + 
                                         "        r = self._random(Zp, 1 << (l + k - 1))\n        r = r.value\n        c = await self.output(a + ((1<<l) + (r << 1) + b.value))\n        x = 1 - b"))
 M('revert-fix-np_unit_vector-inplace', ['C37'], (RT, "        a = a >> f  # NB: no in-place rshift!\n        R = self._random(type(a), 1<<self.options.sec_param)", "        a >>= f\n        R = self._random(type(a), 1<<self.options.sec_param)"))
 M('scalar_mul-inplace-shift', ['C37'], (RT, "            a = a >> f  # NB: no in-place rshift!\n        for i in range(n):\n            x[i] = x[i] * a", "            a >>= f\n        for i in range(n):\n            x[i] = x[i] * a"))
+M('shutdown-future-after-sync', ['C08', 'C09', 'C35'], (RT, "        self.parties[self.pid].protocol = Future(loop=self._loop)\n        logging.debug('Synchronize with all parties before shutdown')\n        await self.transfer(self.pid)\n",
+                                                             "        logging.debug('Synchronize with all parties before shutdown')\n        await self.transfer(self.pid)\n        self.parties[self.pid].protocol = Future(loop=self._loop)\n"))
 M('revert-fix-min_max-key', ['C29'], (RT, "            x[i], x[-1-i] = self.if_swap(key(a) >= key(b), a, b)", "            x[i], x[-1-i] = self.if_swap(a >= b, a, b)"))
 M('sort-compare-without-key', ['C29'], (RT, "                        x[i], x[i + d] = self.if_swap(key(a) < key(b), b, a)", "                        x[i], x[i + d] = self.if_swap(a < b, b, a)"))
 
@@ -337,3 +339,5 @@ M('np_iszero-or', ['C37', 'C11'], (RT, "        field_relative_size = field.orde
 M('np_sgn-mask-short', ['C37', 'C18'], (RT, "        r_divl = self._np_randoms(Zp, n, 1<<k)\n        r_bits = (await r_bits).value", "        r_divl = self._np_randoms(Zp, n, 1<<(k-8))\n        r_bits = (await r_bits).value"))
 M('np_randoms-divisor', ['C37', 'C02'], (RT, "            d = t+1 if self.options.no_prss else math.comb(m, t)\n            bound = 1 << max(0, (bound // d).bit_length() - 1)  # NB: rounded power of 2\n        if self.options.no_prss:\n            uci = self._program_counter[0] % m\n            senders = tuple((uci + i) % m for i in range(t+1))  # TODO: sort out load balancing\n            if self.pid in senders:\n                x = field.array(",
                                         "            d = t+1 if self.options.no_prss else 1\n            bound = 1 << max(0, (bound // d).bit_length() - 1)  # NB: rounded power of 2\n        if self.options.no_prss:\n            uci = self._program_counter[0] % m\n            senders = tuple((uci + i) % m for i in range(t+1))  # TODO: sort out load balancing\n            if self.pid in senders:\n                x = field.array("))
+M('prod-marks-misaligned', ['C03'], (RT, "integral[n%2:] = [integral[i] and integral[i+1] for i in range(n%2, n, 2)]", "integral[n%2:] = [integral[i] and integral[i+1] for i in range(0, n - 1, 2)]"),
+  why='for an odd number of factors the integrality marks are combined for other pairs than the products (FX6)')
